@@ -59,6 +59,9 @@ CHECKS = {
     'C20': ('symbolic execution of the real constructors: symbolic values incl. 0/negatives with enumerated None-patterns, lazy kind proxies for create_rating arguments, uuid stub, two-run syntactic identity for restore',
             'rating()/create_rating() store exactly the passed terms (defaults only for None), one fresh id per object; deepcopy keeps mu, sigma, name, id in distinct objects; after a symbolic game, rate() and the three predictions on ratings rebuilt from (mu, sigma) are syntactically identical terms to those on the original objects.',
             TRUST, '6/C20'),
+    'C06': ('symbolic execution of the real rate() from an arbitrary valid prior state + z3 on the lemma abstraction (range lemmas of every product/quotient/primitive) with fall-back to the full term; function-level lemmas W, W~ >= 0 proved on the real w/wt and applied at call sites after discharging their preconditions',
+            'Inductive step for all histories: from any valid state, on every path of the listed shapes/outcomes/configurations (default and uninterpreted gamma >= 0, limit_sigma on/off) sigma\' > 0, sigma\'^2 <= sigma^2 + tau^2 and sigma\' <= sigma under limit_sigma. TM claimed for draw margins t = kappa/c <= 1e-2.',
+            TRUST + ' Interval transfer rules of the lemma store (sx/core.py f_add/f_mul/f_inv/f_max, outward rounded) are trusted code.', '6/C06'),
     'C07': ('bounded symbolic execution of the real rate() (sx engine) + z3 QF_NRA per path; sat models replayed on float code',
             'For every model, the listed team shapes and every weak order, z3 shows on every path of the real rate() that the '
             'precision-weighted mu change cannot differ from zero (TM: cannot exceed the tied-pair margin) for any mu, sigma, beta, tau, kappa in the domain.',
